@@ -30,6 +30,7 @@ import sys
 import re
 import json
 import codecs
+import locale
 import contextlib
 import ssl
 import warnings
@@ -197,6 +198,15 @@ def open_file_obj(f, mode="r"):
         yield f
 
 
+def _assert_encodable(f, text):
+    """
+    Make sure text can be written to path f, i.e. it can be encoded in the
+    encoding the file is going to be opened with.
+    """
+    if six.PY3 and isinstance(f, six.string_types):
+        text.encode(locale.getpreferredencoding(False))
+
+
 def _file_exists(path):
     if path.startswith(("http://", "https://", "ftp://")):
         try:
@@ -298,6 +308,7 @@ class MetadataBase(object):
         # and may hold values the file format cannot represent
         io = six.StringIO()
         self.build_file(parser, io)
+        _assert_encodable(f, io.getvalue())
         with open_file_obj(f, "w") as f:
             f.write(io.getvalue())
 
